@@ -80,17 +80,30 @@ theorem iterate_ok_last_pass {σ} (pass : Pass σ) (max : Nat) (s : σ) (k : Nat
       exact ⟨s', false, hp⟩
     · simp at h
 
-/-- the law every item must satisfy, lifted to passes: a stable pass leaves the state alone -/
-def StableIsIdentity {σ} (pass : Pass σ) : Prop :=
-  ∀ fl s s', pass fl s = .ok (s', true) → s' = s
+/-- a state on which a strict (last-mode) pass is stable -/
+def LastFix {σ} (pass : Pass σ) (r : σ) : Prop := ∃ f, pass ⟨f, true⟩ r = .ok (r, true)
 
-theorem C02_fixed_point {σ} (pass : Pass σ) (hs : StableIsIdentity pass)
+/-- a stable pass that is not the first leaves the state alone (every item compared
+    its new value *and size* with the previous one) -/
+def StableIsIdentity {σ} (pass : Pass σ) : Prop :=
+  ∀ l s s', pass ⟨false, l⟩ s = .ok (s', true) → s' = s
+
+/-- the first pass may assign the statically known items without comparing (they are
+    marked `resolved` and skipped from then on); if it is stable its result is a strict
+    fixed point -/
+def FirstStable {σ} (pass : Pass σ) : Prop :=
+  ∀ l s s', pass ⟨true, l⟩ s = .ok (s', true) → LastFix pass s'
+
+theorem C02_fixed_point {σ} (pass : Pass σ) (hs : StableIsIdentity pass) (hf : FirstStable pass)
     (max : Nat) (s : σ) (k : Nat) (r : σ)
     (h : iterate pass max s = .ok (k, r)) :
-    ∃ f, pass ⟨f, true⟩ r = .ok (r, true) := by
+    LastFix pass r := by
   obtain ⟨s', f, hp⟩ := iterate_ok_last_pass pass max s k r h
-  have : r = s' := hs _ _ _ hp
-  subst this
-  exact ⟨f, hp⟩
+  cases f with
+  | false =>
+    have : r = s' := hs _ _ _ hp
+    subst this
+    exact ⟨false, hp⟩
+  | true => exact hf _ _ _ hp
 
 end Proto
